@@ -399,6 +399,9 @@ class Circuit:
             while n.kind == '__fork__' and n not in ios:
                 n = n.ins[0].driver
             designated_cell = n
+        # a flip-flop or latch of the implementation keeps the instance's name and position (s_nodes is unchanged)
+        seq_nodes = [n for n in impl.nodes if 'dff' in n.kind.lower() or 'latch' in n.kind.lower()]
+        if len(seq_nodes) > 0: designated_cell = seq_nodes[0]
         node_in_lines = list(node.ins) + [None] * (len(impl_in_nodes)-len(node.ins))
         node_out_lines = list(node.outs) + [None] * (len(impl_out_lines)-len(node.outs))
         assert len(node_in_lines) == len(impl_in_nodes)
@@ -414,7 +417,7 @@ class Circuit:
         ios = set(impl.io_nodes)
         for n in impl.nodes:  # add all nodes to main circuit
             if n not in ios:
-                if n != designated_cell:
+                if designated_cell is None or n != designated_cell:
                     node_map[n] = Node(self, f'{node.name}~{n.name}', n.kind)
             elif len(n.outs) > 0 and len(n.ins) > 0:  # output is also read by impl. circuit, need to add a fork.
                 node_map[n] = Node(self, f'{node.name}~{n.name}')
